@@ -60,6 +60,13 @@ func (s *store) GetTimestampOracle(ctx context.Context) (timestamp uint64, err e
 
 // Get implements storage.KvStorage interface
 func (s *store) Get(ctx context.Context, key []byte) (val []byte, err error) {
+	s.mu.Lock()
+	defer s.mu.Unlock()
+	return s.get(key)
+}
+
+// get returns value indexed by key, it must be called with lock held
+func (s *store) get(key []byte) (val []byte, err error) {
 	elem := s.skl.Get(key)
 	if elem == nil {
 		return nil, storage.ErrKeyNotFound
